@@ -1,7 +1,8 @@
 package main
 
 import (
-	"go/ast"
+	"go/types"
+	"go/constant"
 	"go/token"
 	"strings"
 
@@ -53,8 +54,15 @@ func checkC10(c *Ctx) {
 						}
 					}
 					if iff, ok := b.Instrs[len(b.Instrs)-1].(*ssa.If); ok {
-						if ld, ok := iff.Cond.(*ssa.UnOp); ok && ld.Op == token.MUL && descValue(ld.X, 0) == "pr.withPrecompute" {
-							deleted[edge{b.Index, b.Succs[1].Index}] = true
+						// the edge on which the decoded flag is false, whichever way the test is written
+						if at := atomOf(iff.Cond); at.Kind == "val" {
+							if ld, ok := at.X.(*ssa.UnOp); ok && ld.Op == token.MUL && descValue(ld.X, 0) == "pr.withPrecompute" {
+								falseEdge := 1
+								if at.Neg {
+									falseEdge = 0
+								}
+								deleted[edge{b.Index, b.Succs[falseEdge].Index}] = true
+							}
 						}
 					}
 				}
@@ -64,10 +72,21 @@ func checkC10(c *Ctx) {
 					r := reach(rf, rf.Blocks[0], deleted)
 					acc, _ := acceptReturns(rf, AcceptNilErr)
 					for _, a := range acc {
-						if r[a.ret.Block().Index] {
-							ok = false
-							where = p.Pos(instrPos(a.ret))
+						if !r[a.ret.Block().Index] {
+							continue
 						}
+						// the rebuild and the return in one block: the call precedes the return
+						inBlock := false
+						for _, in := range a.ret.Block().Instrs {
+							if call, isCall := in.(*ssa.Call); isCall && calleeOf(&call.Call).Name == "preComputeTwiddles" {
+								inBlock = true
+							}
+						}
+						if inBlock {
+							continue
+						}
+						ok = false
+						where = p.Pos(instrPos(a.ret))
 					}
 				}
 				// and when the flag is not set the receiver's previous tables are dropped: some store to
@@ -109,43 +128,25 @@ func checkC10(c *Ctx) {
 			// decimation switch
 			c.Instance("C10.switch", 1)
 			ok := false
-			if pkg != nil {
-				if fd := findMethodDecl(pkg, "Domain", name); fd != nil {
-					ast.Inspect(fd, func(n ast.Node) bool {
-						sw, isSw := n.(*ast.SwitchStmt)
-						if !isSw {
-							return true
-						}
-						if id, isID := sw.Tag.(*ast.Ident); !isID || id.Name != "decimation" {
-							return true
-						}
-						seen := map[string]bool{}
-						defPanic := false
-						for _, cc := range sw.Body.List {
-							cl := cc.(*ast.CaseClause)
-							if cl.List == nil {
-								for _, st := range cl.Body {
-									if es, isES := st.(*ast.ExprStmt); isES {
-										if call, isCall := es.X.(*ast.CallExpr); isCall {
-											if f, isF := call.Fun.(*ast.Ident); isF && f.Name == "panic" {
-												defPanic = true
-											}
-										}
-									}
-								}
-							}
-							for _, e := range cl.List {
-								if id, isID := e.(*ast.Ident); isID {
-									seen[id.Name] = true
-								}
-							}
-						}
-						if seen["DIF"] && seen["DIT"] && defPanic {
-							ok = true
-						}
-						return true
-					})
+			_ = pkg
+			// the parameter of the named enumeration type and the values of its constants
+			var dec *ssa.Parameter
+			for _, prm := range fn.Params[1:] {
+				if n, isNamed := prm.Type().(*types.Named); isNamed && isInteger(n) && n.Obj().Pkg() != nil && n.Obj().Pkg().Path() == fnPkgPath(fn) {
+					dec = prm
 				}
+			}
+			if dec != nil {
+				var want []int64
+				sc := dec.Type().(*types.Named).Obj().Pkg().Scope()
+				for _, nm := range sc.Names() {
+					if k, isConst := sc.Lookup(nm).(*types.Const); isConst && types.Identical(k.Type(), dec.Type()) {
+						if v, exact := constant.Int64Val(k.Val()); exact {
+							want = append(want, v)
+						}
+					}
+				}
+				ok = len(want) >= 2 && exhaustiveDispatch(NewIView(fn), dec, want)
 			}
 			c.Ob("C10.switch", pk, funcKey(fn), "decimation-exhaustive", p.Pos(fn.Pos()), ok, funcKey(fn)+": the decimation switch does not handle both DIF and DIT with a panicking default")
 		}
